@@ -62,6 +62,43 @@ pub fn run(ctx: &mut Ctx) {
             }
         }
     }
+    // ---- UDP multiplexer stream: every declared length around the header sizes, with enough bytes behind it
+    // that a wrong threshold reads or skips into the following record --------------------------------------
+    for l in 0u32..=90 {
+        for app_len in [0u8, 1, 4, 40, 255] {
+            let mut s = l.to_be_bytes().to_vec();
+            s.extend_from_slice(&[0u8; 12]);
+            s.extend_from_slice(&[1, 2, 3, 4, 0, 5]);
+            s.extend_from_slice(&[0u8; 12]);
+            s.extend_from_slice(&[1, 2, 3, 4, 0, 5]);
+            s.push(app_len);
+            s.extend((0..60u8).map(|i| b'a' + i % 26));
+            // cut to what the declared length covers when that is more than the fixed header, so that the
+            // stream stays delimited; shorter declarations keep everything (the decoder must drop `l` bytes)
+            if (l as usize) >= 37 {
+                s.truncate(4 + l as usize);
+            } else {
+                s.truncate(4 + (l as usize).max(38));
+            }
+            s.extend_from_slice(&good);
+            for chunks in [vec![s.clone()], vec![s[..5].to_vec(), s[5..].to_vec()]] {
+                let mut q = String::from("c06 decode");
+                for c in &chunks {
+                    q.push(' ');
+                    q.push_str(&hex(c));
+                }
+                let c2 = chunks.clone();
+                match catch(std::panic::AssertUnwindSafe(|| rt.block_on(verif::udp_decode_stream(c2)))) {
+                    Ok(d) => ctx.emit(&q, &crate::c06::fmt_dgs(&d)),
+                    Err(m) => {
+                        ctx.emit(&q, "panic");
+                        ctx.oracle_failure("panic", &format!("udp decoder panicked ({}) on {}", m, q));
+                    }
+                }
+                ctx.stat("udp_length_boundary");
+            }
+        }
+    }
     // ---- ICMP multiplexer stream ------------------------------------------------------------------------
     for t in &tails {
         let q = format!("c11 decode {}", hex(t));
